@@ -20,8 +20,11 @@ var strPool = []string{"a", "b", "cc", "ddd", "1", "true"}
 func nodeId(i int) string { return fmt.Sprintf("%s%d", NodeNS, i) }
 
 // random graph: nNodes nodes, classes T/U, properties p0..p3 holding literals or links
-func (g *G) graph(nNodes int, linkBias float64) Graph {
+func (g *G) graph(nNodes int, linkBias float64) Graph { return g.graphA(nNodes, linkBias, false) }
+
+func (g *G) graphA(nNodes int, linkBias float64, annotate bool) Graph {
 	var gr Graph
+	var extra []Node
 	for i := 0; i < nNodes; i++ {
 		n := Node{Id: nodeId(i), Types: []string{}, Props: []Prop{}}
 		if g.coin(0.7) {
@@ -64,20 +67,57 @@ func (g *G) graph(nNodes int, linkBias float64) Graph {
 			}
 			n.Props = append(n.Props, Prop{Iri: NS + p, Vals: vs})
 		}
+		// annotations (custom domain properties): node --customDomainProperties--> link X, node --X--> annotation node
+		if annotate && g.coin(0.45) {
+			k := 1 + g.n(2)
+			var links []Val
+			for j := 0; j < k; j++ {
+				x := fmt.Sprintf("%sann/%d_%d", NodeNS, i, j)
+				y := fmt.Sprintf("%sannval/%d_%d", NodeNS, i, j)
+				links = append(links, VR(x))
+				switch g.n(6) {
+				case 0:
+					n.Props = append(n.Props, Prop{Iri: x, Vals: []Val{VR(y), VR(nodeId(g.n(nNodes)))}}) // two values: not an annotation
+				case 1:
+					n.Props = append(n.Props, Prop{Iri: x, Vals: []Val{VS("literal")}})
+				default:
+					n.Props = append(n.Props, Prop{Iri: x, Vals: []Val{VR(y)}})
+				}
+				ann := Node{Id: y, Types: []string{NS + "A"}, Props: []Prop{}}
+				switch g.n(5) {
+				case 0:
+					ann.Props = append(ann.Props, Prop{Iri: ExtensionName, Vals: []Val{VS("other")}})
+				case 1:
+					ann.Props = append(ann.Props, Prop{Iri: ExtensionName, Vals: []Val{VS("wadus"), VS("other")}})
+				default:
+					ann.Props = append(ann.Props, Prop{Iri: ExtensionName, Vals: []Val{VS(g.pick([]string{"wadus", "wadus", "maturity"}))}})
+				}
+				if g.coin(0.7) {
+					ann.Props = append(ann.Props, Prop{Iri: NS + "p0", Vals: []Val{VS(g.pick(strPool))}})
+				}
+				extra = append(extra, ann)
+			}
+			n.Props = append(n.Props, Prop{Iri: CustomDomainProps, Vals: links})
+		}
 		if len(n.Types) == 0 && len(n.Props) == 0 {
 			// JSON-LD flattening drops nodes that carry nothing but an @id
 			n.Types = append(n.Types, NS+"U")
 		}
 		gr = append(gr, n)
 	}
-	return gr
+	return append(gr, extra...)
 }
 
 // random path of the full grammar
+var customSteps = false
+
 func (g *G) path(depth int) Path {
 	if depth <= 0 || g.coin(0.45) {
 		if g.coin(0.07) {
 			return PType()
+		}
+		if customSteps && g.coin(0.3) {
+			return PCustom(g.pick([]string{"wadus", "wadus", "maturity", "absent"}), g.coin(0.2))
 		}
 		return PP(g.pick(propPool), g.coin(0.25))
 	}
